@@ -183,6 +183,7 @@ class Strategy:
             return self._decide_window_zero(p)
 
         ev = Evaluator(self.prog, inline=self._inline, opaque_kind=REPO_RESULT_KIND, decide=decide)
+        ev.zero_division_is_value = True       # the strategies compute with NumPy scalars taken from arrays
         self.ev = ev
         self.result, st = ev.run_function(rfa, self_val=self.obj, heap={self.oid: fields})
         self.issues += ev.issues
@@ -405,7 +406,9 @@ class Strategy:
             if vnum is None or vnum.length is not None:
                 raise AnalysisError(f"store of a non-scalar / non-numeric value at {e.loc()}: {str(val)[:200]}")
             u = has_unsupported(vnum)
-            if u:
+            if u and not u.startswith('undefined'):
+                # (a value that divides by a zero-width window is kept: it is compared like any other, and matters only where the store's sample
+                # range is not empty)
                 raise AnalysisError(f"store value at {e.loc()} contains an uninterpreted construct: {u}")
             if len(loops) == 1 and loops[0].kind == 'range':
                 # one sample of interval k written directly in the interval loop: a range of one sample
